@@ -1148,7 +1148,9 @@ class PEvolve(e1.Op):
         c = np.vdot(ref, got) / np.vdot(ref, ref)
         dev = float(np.linalg.norm(got - c * ref) / max(np.linalg.norm(got), 1e-300))
         errs = [float(i.truncation_error) for i in infos]
-        if dev > 1e-7 or abs(c) < 1e-12:
+        # round-off level here is sqrt(machine epsilon) * scale: the library measures truncation through squared norms (reported errors of ~1e-7 are
+        # round-off, and the state deviates by the same amount); the same 1e-6 bounds both
+        if dev > 1e-6 or abs(c) < 1e-12:
             raise V("C12", "untruncated-evolution", "op %d: evolution_step_ (env %s, method %s, initialization %s) with a non-binding truncation does not reproduce the exactly evolved state up to normalisation: "
                     "relative deviation %.3e (reported truncation errors %s)" % (rec["id"], ar["which"], ar["method"], ar["initialization"], dev, errs), which=ar["which"])
         if any(not np.isfinite(e) or e > 1e-6 for e in errs):
